@@ -28,6 +28,7 @@ for d in sorted(glob.glob(f'{V}/seeded/*/meta.json')):
     caught = ', '.join(f"{c}: {st.lower()} ({n})" for c, st, n in r) if r else m.get('caught_by', '?')
     rows.append(f"| `{name}` | {m.get('property')} | {summ} | {caught} |")
 tail = tail.replace('@@SEED_TABLE@@', '\n'.join(rows))
+tail = tail.replace('@@NSEED@@', str(len(glob.glob(f'{V}/seeded/*/meta.json'))))
 # cost
 th = {}
 if os.path.exists(f'{V}/build/logs/thorough_all.log'):
@@ -51,6 +52,7 @@ d = open(f'{V}/DESIGN.md').read()
 nf = len(json.load(open(f'{V}/KNOWN_FINDINGS.json'))['findings'])
 ns = len(glob.glob(f'{V}/seeded/*/meta.json'))
 d = re.sub(r'found \d+ genuine defects', f'found {nf} genuine defects', d)
+d = re.sub(r'^\w+ seeded property-breaking changes that compile', f'{ns} seeded property-breaking changes that compile', d, flags=re.M)
 a = d.index('## 5. ')
 b = d.index('## Appendix A')
 d = d[:a] + tail + '\n---------------------------------------------------------------------------\n\n' + d[b:]
